@@ -81,6 +81,21 @@ CHECKS = {
             "All 16 registration orders / subsets of a harness list (named sets, records every query) for Int, Ip, Bytes (matchers are routed by registration index; the same names hold different contents per type) x every left-hand-side shape (field, index path, [*] paths, call, call over [*]) x 7 list names x 36 contexts: results equal set membership per element, the recorded (name, value) queries equal the reference in order, types without a list are rejected at parse time; every list name of length <=3 over {a,z,0,_,.} plus an invalid set in four syntactic positions; built-in always / never lists on every shape, also on deserialised, cloned and cleared-and-refilled contexts; BFS (depth 5 / 7) over {insert into a named set, set / unset a field, clear, serialise -> deserialise into a fresh context, clone} for three registrations, all in-list filters evaluated after every step, dedup on the serialised context.",
             "The harness matcher's own (de)serialisation is serde-derived; state key = context serialisation.",
             "DESIGN.md §5 C17"),
+    "C18": ("model_checking",
+            "stateless exploration of the real code under a controlled cooperative scheduler: preemption-bounded exhaustive DFS over schedules",
+            "59 (quick) / 85 (thorough) scenarios of 2-3 real threads x 1-2 operations (execute a shared compiled filter / value expression, or parse + compile + execute) over 9 filters (regex, wildcard, SIMD contains, in $list with a harness matcher, map-each with memoised and re-evaluated arguments, nested harness calls, in {...}) and 3 contexts with different values, with sequential warm-ups, every execution starting from freshly compiled filters: every schedule with at most 2 (quick) / 3 (thorough) preemptions at the granularity of the cfg-guarded engine hooks and of every harness function / matcher call is executed to completion and every call's result compared with the sequential baseline. One schedule is replayed twice (identical traces required); a deliberately racy harness function is the canary (must show > 1 outcome); first use of lazily initialised state is explored in a fresh process. Auxiliary and not deciding: free-running barrier-released threads (4/16/64).",
+            "Hooks: wirefilter::verif::set_yield_hook (sites filter.execute, filter_value.execute, ctx.get_field_value, regex.is_match, in_list.match_value, contains.select_searcher). No preemption inside dependency code between points; weak-memory effects invisible.",
+            "DESIGN.md §5 C18"),
+    "C19": ("model_checking",
+            "exhaustive enumeration of step sequences interpreted for real on fresh threads against a reference machine; all interleavings of two threads under the controlled scheduler",
+            "Every sequence of <=5 (quick) / <=6 (thorough) steps over {enable, disable, enter catch_panic, return, panic with a unique message, install hook again, set fallback Continue, get backtrace} (37 449 / 299 593 sequences) is interpreted on a fresh thread with real catch_panic frames and real unwinding (the interpreter's outermost catch_unwind plays `outside catch_panic`), with a sentinel hook installed before the catcher's: frame results (value / error text containing the message), nesting level after every step (cfg-guarded accessor), sentinel reception of uncaught panics and the recorded backtrace are compared with the reference machine; five deeper structured sequences; every pair of sequences of length <=2 (thorough: <=3 x <=2) over the five state-changing steps on two threads under every interleaving at step granularity: each thread's observations equal its single-thread reference.",
+            "Hook: wirefilter::verif::panic_catcher_level. Fallback mode Abort (aborts by design) and the first-installation race of the hook are outside the property's precondition.",
+            "DESIGN.md §5 C19"),
+    "C20": ("model_checking",
+            "parity enumeration over a filter corpus; exhaustive call histories with the last-error text as state; all interleavings of two threads at call granularity",
+            "Every corpus filter well-typed in the C universe and 19 error inputs (NUL bytes, invalid UTF-8, unknown fields, wrong types, bad literals) through the exported functions next to the Rust API: parse status, error text (modulo NUL -> 0x1a), AST JSON, hash = FNV of the JSON, uses / uses_list for every field and unknown names, compile, match and context JSON on 3 contexts filled through the typed and JSON setters. Every sequence of <=3 (quick) / <=4 (thorough) calls over 17 call kinds (succeeding calls, 12 kinds of failing calls, clear): each failure is reported through status / boolean and the calling thread's last-error equals the Rust API's error text, is NUL-terminated without interior NUL, is replaced by the next failure, untouched by successes and cleared by clear. Two threads x 2 calls under every interleaving. A harness function panicking in check_param / compile / execution with hook installed and catcher enabled gives Status::Panic with the message in last-error and no unwinding.",
+            "The exported functions are called from the rlib; functions are registered through the wrapped Rust builder.",
+            "DESIGN.md §5 C20"),
     "C12": ("exploration",
             "exhaustive program corpus x every field name; oracle from the generating structure",
             "Every program of the sole-occurrence family (the only mention of a field at each AST position kind - lhs, index base, 1st/2nd/3rd call argument at depth 1-3, logical argument, quantifier argument in both forms, chain operand left/middle/right, under not/parentheses - inside or outside the lhs of an `in $list`, including `in $list` below plain call arguments 2-3 calls deep) and of the shared corpus x every field of the scheme and 7 non-field names, for uses and uses_list, on FilterAst and FilterValueAst.",
